@@ -116,6 +116,20 @@ partial def evalExpr (j : Json) : M (Except Err (Operand Rat)) := do
         else return .error .typeError
     | .ok _ => return .error .typeError
     | .error e => return .error e
+  -- `{"wrapz": {"z": …, "ztype": …}, "e": expr}`: `SourceSpectrum(expr, z=…, z_type=…)` — a new source whose model is
+  -- the (already redshifted) model of the source `expr` yields, carrying its own redshift on top
+  if let some zj := fOpt j "wrapz" then
+    let inner ← getField j "e" >>= evalExpr
+    let z ← fRat zj "z"
+    match inner with
+    | .ok (.spec s) =>
+        if s.kind = .source then
+          match s.model with
+          | .ok m => return .ok (.spec { kind := .source, tree := m, zs := ZState.init z (parseZType zj) })
+          | .error e => return .error e
+        else return .error .typeError
+    | .ok _ => return .error .typeError
+    | .error e => return .error e
   match fOpt j "prim", fOpt j "scalar", fOpt j "op" with
   | some _, _, _ => do
       let s ← parsePrim j
